@@ -363,6 +363,10 @@ class Machine:
             return UNIT
         m = re.match(r'^\{closure@[^}]*\}$', s)
         if m: return ClosureV(s, [])
+        # derive-generated marker structs: `__Visitor::<'_> {{ marker: PhantomData::<T>, lifetime: PhantomData::<&()> }}`
+        m = re.match(r"^([A-Za-z_][A-Za-z_0-9]*)(?:::<[^{}]*>)? \{\{ (.*) \}\}$", s)
+        if m and all('PhantomData' in part for part in m.group(2).split(', ') if ':' in part):
+            return Agg([UNIT for _ in m.group(2).split(', ')], m.group(1))
         # enum unit variant constant  e.g. ReplacementEnforce::Normal
         segs = strip_generics(s).split('::')
         if len(segs) >= 2 and segs[-2] in self.idx.enums and segs[-1] in self.idx.enums[segs[-2]]:
